@@ -3,6 +3,9 @@ import CuqiVerif.Model.QMat
 import CuqiVerif.Model.RExpr
 import CuqiVerif.Model.C07
 import CuqiVerif.Model.C17
+import CuqiVerif.Model.C17_psf
+import CuqiVerif.Model.C17_phantom
+import CuqiVerif.Model.C17_grids
 open CuqiVerif CuqiVerif.Proto CuqiVerif.C07 CuqiVerif.C17
 
 /-!
@@ -25,6 +28,16 @@ Line protocol of the C17 model (R = Rat).
   quad  <cov> <dev>             -> `Σ dev²/cov`  (cov of length 1 is broadcast)
   comp  <problem>               -> `model=… data=… exactSolution=… exactData=… info=<0|1> misc=<0|1> path=…`
   cap   <word>                  -> python `str.capitalize`
+  psf1  <dim> <name> <param|none> <size|none> <gtab|_> -> `P=<vec> c=<k>` | `nan` | `raises:<cls>`  named 1-D PSF through the option glue
+                                   (gtab: leaf values exp(-n/(2 p^2)), n = 0,1,2,…, only read for 'gauss')
+  psf2  <name> <param> <size> <gtab|_>                 -> `P=<mat> c=<i>,<j>` | `nan` | `raises:<cls>`
+  dc1n  <BC> <dim> <name> <param|none> <size|none> <gtab|_> -> `asm=<mat>` stored Deconvolution1D matrix for a named PSF | `err` | `nan` | `raises:<cls>`
+  docdef1 <size> <param>        -> `P=<vec>` documented closed disc about entry size/2, normalised | `nan`
+  docdef2 <size> <param>        -> `P=<mat>` | `nan`
+  grids poisson <dim> <endpoint>      -> `src=<vec> sol=<vec> dom=<vec> fd=<vec>`  (source nodes, grid_sol, field grid, nodes of the difference scheme)
+  grids heat <dim> <endpoint> <maxTime> -> `x=<vec> k=<iters> t=<vec>`
+  grids abel <n> <endpoint>           -> `t=<vec> geom=<vec>`
+  phantom <name> <dim> <param|none> -> `x=<vec>` | `nan` | `raises:<cls>` | `leaf` (not an exactly computable phantom)
 -/
 
 abbrev Q := Rat
@@ -51,6 +64,30 @@ def parseProblem : String → Option Problem
   | "WangCubic" => some .wangCubic | _ => none
 
 def pick (v : List Q) (idx : List Nat) : List Q := let a := v.toArray; idx.map (fun i => a.getD i 0)
+
+/-- leaf `t ↦ exp(-t/2)` from the table `v_n = exp(-n/(2p²))`: `g (n/p²) = v_n` -/
+def gLeaf (tab : List Rat) (p : Rat) : Rat → Rat :=
+  let a := tab.toArray
+  fun t => let n := t * (p * p); if n.den = 1 ∧ 0 ≤ n.num then a.getD n.num.toNat 0 else 0
+
+def parseOptRat (t : String) : Option (Option Rat) := if t = "none" then some none else (parseRat t).map some
+def parseOptNat (t : String) : Option (Option Nat) := if t = "none" then some none else t.toNat?.map some
+def parseTab (t : String) : Option (List Rat) := if t = "_" then some [] else parseVec t
+def piLeaf : Rat := 22 / 7
+
+def fmtPsf1 (size : Nat) : Psf1 Rat → String
+  | .ok P c => s!"P={fmtVec (tab size P)} c={c}"
+  | .nan _ => "nan"
+  | .raises cls => s!"raises:{cls}"
+
+def fmtPsf2 (size : Nat) : Psf2 Rat → String
+  | .ok P c0 c1 => s!"P={fmtMat ((List.range size).map (fun i => tab size (P i)))} c={c0},{c1}"
+  | .nan _ _ => "nan"
+  | .raises cls => s!"raises:{cls}"
+
+/-- gauss / moffat divide by `PSF_param**2`: a zero parameter is not a modelled input -/
+def zeroParamUnmodelled (name : String) (p : Rat) : Bool :=
+  p == 0 && (name.toLower == "gauss" || name.toLower == "moffat")
 
 def step : List String → String
   | ["dc1", bc, n, p] =>
@@ -191,6 +228,80 @@ def step : List String → String
       s!"model={objS c.model} data={objS c.data} exactSolution={objS c.exactSolution} exactData={objS c.exactData} info={fmtBool c.hasInfoString} misc={fmtBool c.hasMisc} likdist={objS t.likelihood.dist} prior={objS t.getPrior}"
     | none => "err"
   | ["cap", w] => capitalize w
+  | ["psf1", dim, name, par, size, gt] =>
+    match dim.toNat?, parseOptRat par, parseOptNat size, parseTab gt with
+    | some dim, some par, some size, some gt =>
+      let p := psfParam1 par 10
+      if zeroParamUnmodelled name p then "err:param0" else
+      let sz := psfSize1 dim size
+      if sz = 0 then "err:size0" else
+      fmtPsf1 sz (namedPSF1D (gLeaf gt p) piLeaf dim name par size)
+    | _, _, _, _ => "bad-op"
+  | ["psf2", name, par, size, gt] =>
+    match parseRat par, size.toNat?, parseTab gt with
+    | some p, some sz, some gt =>
+      if zeroParamUnmodelled name p then "err:param0" else
+      if sz = 0 then "err:size0" else
+      fmtPsf2 sz (namedPSF2D (gLeaf gt p) piLeaf name p sz)
+    | _, _, _ => "bad-op"
+  | ["dc1n", bc, dim, name, par, size, gt] =>
+    match dim.toNat?, parseOptRat par, parseOptNat size, parseTab gt with
+    | some dim, some par, some size, some gt =>
+      let p := psfParam1 par 10
+      if zeroParamUnmodelled name p then "err:param0" else
+      if psfSize1 dim size = 0 ∨ dim = 0 then "err:size0" else
+      match bc1d bc.toLower with
+      | none => "err"
+      | some m =>
+        match namedPSF1D (gLeaf gt p) piLeaf dim name par size with
+        | .ok P _ =>
+          -- the PSF is tabulated once (its entries are the model's `createPSF1` / `defocusPSF1` values)
+          let Pt := vecFn (tab (psfSize1 dim size) P)
+          s!"asm={fmtL (deconv1dMatrix m (psfSize1 dim size) Pt dim).force}"
+        | .nan _ => "nan"
+        | .raises cls => s!"raises:{cls}"
+    | _, _, _, _ => "bad-op"
+  | ["grids", "poisson", dim, ep] =>
+    match dim.toNat?, parseRat ep with
+    | some dim, some ep =>
+      if dim < 2 then "err:dim" else
+      s!"src={fmtVec (tab (dim - 1) (poissonSrcGrid dim ep))} sol={fmtVec (tab (dim - 1) (poissonSolGrid dim ep))} dom={fmtVec (tab dim (poissonDomGrid dim ep))} fd={fmtVec (tab (dim - 1) (poissonFdNode dim ep))}"
+    | _, _ => "bad-op"
+  | ["grids", "heat", dim, ep, mt] =>
+    match dim.toNat?, parseRat ep, parseRat mt with
+    | some dim, some ep, some mt =>
+      if dim < 1 ∨ ep ≤ 0 ∨ mt < 0 then "err:dim" else
+      let k := heatMaxIter mt (heatDxQ dim ep)
+      s!"x={fmtVec (tab dim (heatGrid dim ep))} k={k} t={fmtVec (tab (k + 1) (heatTime mt k))}"
+    | _, _, _ => "bad-op"
+  | ["grids", "abel", n, ep] =>
+    match n.toNat?, parseRat ep with
+    | some n, some ep =>
+      if n < 1 then "err:dim" else s!"t={fmtVec (tab n (abelTvec n ep))} geom={fmtVec (tab n (abelGeomGrid n ep))}"
+    | _, _ => "bad-op"
+  | ["phantom", name, dim, par] =>
+    match dim.toNat?, parseOptRat par with
+    | some dim, some par =>
+      match phantomExact dim name par with
+      | none => "leaf"
+      | some (.ok x) => if x.isEmpty then "x=_" else s!"x={fmtVec x}"
+      | some .nan => "nan"
+      | some (.raises cls) => s!"raises:{cls}"
+    | _, _ => "bad-op"
+  | ["docdef1", size, par] =>
+    match size.toNat?, parseRat par with
+    | some sz, some p =>
+      if sz = 0 then "err:size0" else
+      if sumTo sz (fun j => if docDiscIn1 (sz / 2) p (j : Int) then (1 : Rat) else 0) = 0 then "nan" else
+      s!"P={fmtVec (tab sz (docDefocus1 sz p))}"
+    | _, _ => "bad-op"
+  | ["docdef2", size, par] =>
+    match size.toNat?, parseRat par with
+    | some sz, some p =>
+      if sz = 0 then "err:size0" else
+      if sumTo sz (fun a => sumTo sz (fun b => if docDiscIn2 (sz / 2) p (a : Int) (b : Int) then (1 : Rat) else 0)) = 0 then "nan" else
+      s!"P={fmtMat ((List.range sz).map (fun i => tab sz (docDefocus2 sz p i)))}"
+    | _, _ => "bad-op"
   | _ => "bad-op"
 
 def main : IO Unit := runDriver step
